@@ -201,12 +201,15 @@ def analyze(scn, timeout_s=900, reduce=True, verbose=False, seed=0, raw_states=3
                 # parts of some thread's tree have not been executed yet: execute them and rebuild
                 seen = set()
                 try:
-                    for (k, t, e) in fhits:
-                        sig = (t, e.src, tuple((d, c) for d, c, _ in e.prims))
+                    for (k, t, e) in fhits[:4000]:
+                        path = ind.red.path_to(k)
+                        # the thread's own path in its tree identifies the frontier edge
+                        sig = (t, tuple(c for (t2, e2) in path if t2 == t for _, c, _ in e2.prims),
+                               tuple(c for _, c, _ in e.prims))
                         if sig in seen:
                             continue
                         seen.add(sig)
-                        ex.continue_from(steps_of(ind.red.path_to(k), (t, e)), {}, None,
+                        ex.continue_from(steps_of(path, (t, e)), {}, None,
                                          max_states=local_states, max_s=2.0)
                 except Exception as e_:
                     res['reason'] = f'frontier expansion: {type(e_).__name__}: {e_}'
